@@ -1035,6 +1035,25 @@ class ComputeGraph(MultiDiGraph):
             lambda e: isinstance(e, Derivative) and e.expr.func.__name__ in ('absv', 'abs'),
             lambda e: Function('sign')(e.expr.args[0])
         )
+        # maxi / mini (calls renamed to maximum / minimum): d/da max(a, b) = [a > b], d/da min(a, b) = [a < b], written with
+        # sign so that no new backend function is needed (1/2 at a tie, the symmetric sub-gradient)
+        def _maxmin_rule(e):
+            f, var = e.expr, e.variables[0]
+            a, b = f.args
+            if var == a and var != b:
+                d = a - b
+            elif var == b and var != a:
+                d = b - a
+            else:
+                return e
+            if f.func.__name__ in ('minimum', 'mini'):
+                d = -d
+            return sp.Float(0.5) * Function('sign')(d) + sp.Float(0.5)
+        expr = expr.replace(
+            lambda e: isinstance(e, Derivative) and e.expr.func.__name__ in ('maximum', 'minimum', 'maxi', 'mini')
+            and len(e.expr.args) == 2 and len(e.variables) == 1,
+            _maxmin_rule
+        )
         # Sympy wraps chain-rule applications of identity/sigmoid/absv in
         # Subs(Derivative(f(_xi), _xi), _xi, real_arg) because these functions
         # have no fdiff defined.  Once the inner Derivative has been replaced
